@@ -54,12 +54,14 @@ type item struct {
 }
 
 type probeReq struct {
-	Items    []item       `json:"items"`
-	Chain    *chainDetail `json:"chain,omitempty"`
-	Poisoned []int        `json:"poisoned,omitempty"` // operation sequence numbers to skip
-	StopAt   int          `json:"stop_at,omitempty"`  // >0: stop after this operation sequence number
-	Confirm  bool         `json:"confirm,omitempty"`  // no presumed-repeat abort
-	Known    []string     `json:"known,omitempty"`    // confirmed hang keys
+	Items []item       `json:"items"`
+	Chain *chainDetail `json:"chain,omitempty"`
+	// Chains (chain-ue): several hostile variants of one parameter set; each is parsed and then followed by the same items
+	Chains   []*chainDetail `json:"chains,omitempty"`
+	Poisoned []int          `json:"poisoned,omitempty"` // operation sequence numbers to skip
+	StopAt   int            `json:"stop_at,omitempty"`  // >0: stop after this operation sequence number
+	Confirm  bool           `json:"confirm,omitempty"`  // no presumed-repeat abort
+	Known    []string       `json:"known,omitempty"`    // confirmed hang keys
 }
 
 type probeViol struct {
@@ -73,6 +75,7 @@ type trip struct {
 	Op    string `json:"op"`
 	Seq   int    `json:"seq"`
 	Item  int    `json:"item"`
+	Chain int    `json:"chain"`
 	Frame string `json:"frame"`
 	Stack string `json:"stack"`
 	CPUms int64  `json:"cpu_ms"`
@@ -222,6 +225,7 @@ var (
 	monLen     int64  // length of the bytes handed to it
 	monAlloc0  uint64 // allocation counter at its start
 	monItem    int64
+	monChain   int64
 	monOpName  atomic.Value // string
 	monConfirm int32
 	monKnown   atomic.Value // map[string]bool
@@ -243,6 +247,9 @@ func setStatus(seq int, op string) {
 		return
 	}
 	atomic.StoreUint64((*uint64)(unsafe.Pointer(&statusMem[0])), uint64(seq))
+	// which hostile variant / which item the operation belongs to (for a death without a trip report)
+	atomic.StoreUint32((*uint32)(unsafe.Pointer(&statusMem[8])), uint32(atomic.LoadInt64(&monChain)))
+	atomic.StoreUint32((*uint32)(unsafe.Pointer(&statusMem[12])), uint32(atomic.LoadInt64(&monItem)))
 	n := copy(statusMem[16:statusFileLen-1], op)
 	statusMem[16+n] = 0
 }
@@ -270,6 +277,7 @@ func monitor() {
 		a0 := atomic.LoadUint64(&monAlloc0)
 		op, _ := monOpName.Load().(string)
 		itemNo := atomic.LoadInt64(&monItem)
+		chainNo := atomic.LoadInt64(&monChain)
 		a := allocatedBytesMon()
 		used := cpuNow() - cpu0
 		if atomic.LoadInt64(&monGen) != gen || atomic.LoadInt32(&monActive) == 0 {
@@ -306,7 +314,7 @@ func monitor() {
 		if !atomic.CompareAndSwapInt32(&tripped, 0, 1) {
 			select {}
 		}
-		t := &trip{Class: class, Op: op, Seq: int(seq), Item: int(itemNo), Frame: fr, Stack: head(sec, 4000),
+		t := &trip{Class: class, Op: op, Seq: int(seq), Item: int(itemNo), Chain: int(chainNo), Frame: fr, Stack: head(sec, 4000),
 			CPUms: used / 1e6, Alloc: a - a0, Bound: bound, Len: int(n)}
 		b, _ := json.Marshal(&probeResp{Trip: t})
 		probeOut.Write(b)
@@ -439,73 +447,16 @@ func serve(req *probeReq) *probeResp {
 		poisoned[p] = true
 	}
 	st := &seqState{poisoned: poisoned, stopAt: req.StopAt}
-	maps := defaultMaps
-	skipItems := false
-	if req.Chain != nil {
-		atomic.StoreInt64(&monItem, 0)
-		var ps0 []byte
-		if len(req.Chain.PS) > 0 {
-			ps0 = unhex(req.Chain.PS[0])
-		}
-		x := &runCtx{c: sk, in: ps0, desc: "chain: parsing the hostile parameter sets", chain: req.Chain, seq: st, maps: defaultMaps, mode: "chain-ps"}
-		if len(req.Items) > 0 {
-			x.desc = "chain: parsing the hostile parameter sets of: " + req.Items[0].Desc
-		}
-		var hostileOK bool
-		maps, hostileOK = chainMaps(x, req.Chain)
-		resp.NOps += x.nOps
-		if req.Chain.Struct {
-			if hostileOK {
-				sk.Seen("ps_struct_accepted_kind", req.Chain.Kind)
-				resp.Accepted = append(resp.Accepted, runner.Hash64(ps0, []byte("ps-struct")))
-			} else {
-				sk.Seen("ps_struct_rejected_kind", req.Chain.Kind)
-			}
-		}
-		if req.Chain.Sys {
-			// chain-ue: the dependent units only run with a hostile set the library accepted
-			if !hostileOK {
-				sk.Count("chain_ue_hostile_set_rejected", 1)
-				skipItems = true
-			} else {
-				sk.Count("chain_ue_hostile_set_accepted", 1)
-				sk.Seen("chain_ue_accepted_kind", req.Chain.Kind)
-				if req.Chain.Field != "" && req.Chain.Flip {
-					sk.Seen("chain_ue_accepted_with_first_bit_flipped_of", req.Chain.Kind+":"+req.Chain.Field)
-				} else if req.Chain.Field != "" {
-					sk.Seen("chain_ue_accepted_with_extreme_value_in", req.Chain.Kind+":"+req.Chain.Field)
-				}
-				resp.Accepted = append(resp.Accepted, runner.Hash64(ps0, []byte("chain-ue")))
-			}
-		}
+	chains := req.Chains
+	if len(chains) == 0 {
+		chains = []*chainDetail{req.Chain}
 	}
-	for i, it := range req.Items {
-		if st.stopped || skipItems {
+	for ci, ch := range chains {
+		if st.stopped {
 			break
 		}
-		atomic.StoreInt64(&monItem, int64(i))
-		x := &runCtx{c: sk, in: it.In, desc: it.Desc, maps: maps, chain: req.Chain, seq: st, mode: it.Mode, types: it.Types}
-		switch it.Mode {
-		case "sei-direct":
-			x.seiDirect(it.In, it.Types)
-		case "dependent":
-			x.runDependent(req.Chain.Codec)
-		case "sei-nal":
-			x.runSEINal()
-		default:
-			x.runOps()
-		}
-		resp.NOps += x.nOps
-		sk.Count("inputs", 1)
-		sk.Seen("input_len_class", lenClass(len(it.In)))
-		if x.progressed {
-			sk.Count("inputs_accepted_by_some_operation", 1)
-			resp.Accepted = append(resp.Accepted, runner.Hash64(it.In, []byte(chainKey(req.Chain)), []byte(it.Mode)))
-			if len(resp.Samples) < 1 {
-				b, _ := json.Marshal(map[string]interface{}{"case": it.Desc, "input_hex": head(hexs(it.In), 200), "input_len": len(it.In), "library_calls": x.nOps})
-				resp.Samples = append(resp.Samples, b)
-			}
-		}
+		atomic.StoreInt64(&monChain, int64(ci))
+		serveChain(resp, sk, st, ch, req.Items)
 	}
 	setStatus(-1, "idle")
 	return resp
@@ -517,4 +468,87 @@ type seqState struct {
 	poisoned map[int]bool
 	stopAt   int
 	stopped  bool
+}
+
+// serveChain parses the parameter sets of one chain (nil: none) and runs the
+// items with the resulting maps.
+func serveChain(resp *probeResp, sk *localSink, st *seqState, ch *chainDetail, items []item) {
+	maps := defaultMaps
+	skipItems := false
+	pfx := ""
+	if ch != nil {
+		atomic.StoreInt64(&monItem, 0)
+		var ps0 []byte
+		if len(ch.PS) > 0 {
+			ps0 = unhex(ch.PS[0])
+		}
+		if ch.Desc != "" {
+			pfx = ch.Desc + " -> "
+		}
+		x := &runCtx{c: sk, in: ps0, desc: "chain: parsing the hostile parameter sets", chain: ch, seq: st, maps: defaultMaps, mode: "chain-ps"}
+		if ch.Desc != "" {
+			x.desc = "chain: parsing the hostile parameter sets of: " + ch.Desc
+		} else if len(items) > 0 {
+			x.desc = "chain: parsing the hostile parameter sets of: " + items[0].Desc
+		}
+		var hostileOK bool
+		maps, hostileOK = chainMaps(x, ch)
+		resp.NOps += x.nOps
+		if ch.Struct {
+			if hostileOK {
+				sk.Seen("ps_struct_accepted_kind", ch.Kind)
+				resp.Accepted = append(resp.Accepted, runner.Hash64(ps0, []byte("ps-struct")))
+			} else {
+				sk.Seen("ps_struct_rejected_kind", ch.Kind)
+			}
+		}
+		if ch.Sys {
+			// chain-ue: the dependent units only run with a hostile set the library accepted
+			if !hostileOK {
+				sk.Count("chain_ue_hostile_set_rejected", 1)
+				skipItems = true
+			} else {
+				sk.Count("chain_ue_hostile_set_accepted", 1)
+				sk.Seen("chain_ue_accepted_kind", ch.Kind)
+				if ch.Field != "" && ch.Flip {
+					sk.Seen("chain_ue_accepted_with_first_bit_flipped_of", ch.Kind+":"+ch.Field)
+				} else if ch.Field != "" {
+					sk.Seen("chain_ue_accepted_with_extreme_value_in", ch.Kind+":"+ch.Field)
+				}
+				resp.Accepted = append(resp.Accepted, runner.Hash64(ps0, []byte("chain-ue")))
+			}
+		}
+	}
+	for i, it := range items {
+		if st.stopped || skipItems {
+			break
+		}
+		atomic.StoreInt64(&monItem, int64(i))
+		x := &runCtx{c: sk, in: it.In, desc: pfx + it.Desc, maps: maps, chain: ch, seq: st, mode: it.Mode, types: it.Types}
+		switch it.Mode {
+		case "sei-direct":
+			x.seiDirect(it.In, it.Types)
+		case "dependent":
+			codec := ""
+			if ch != nil {
+				codec = ch.Codec
+			}
+			x.runDependent(codec)
+		case "sei-nal":
+			x.runSEINal()
+		default:
+			x.runOps()
+		}
+		resp.NOps += x.nOps
+		sk.Count("inputs", 1)
+		sk.Seen("input_len_class", lenClass(len(it.In)))
+		if x.progressed {
+			sk.Count("inputs_accepted_by_some_operation", 1)
+			resp.Accepted = append(resp.Accepted, runner.Hash64(it.In, []byte(chainKey(ch)), []byte(it.Mode)))
+			if len(resp.Samples) < 1 {
+				b, _ := json.Marshal(map[string]interface{}{"case": pfx + it.Desc, "input_hex": head(hexs(it.In), 200), "input_len": len(it.In), "library_calls": x.nOps})
+				resp.Samples = append(resp.Samples, b)
+			}
+		}
+	}
 }
